@@ -282,9 +282,10 @@ def build_model_driver():
     for m in mods:
         shutil.copy(os.path.join(srcdir, m), os.path.join(BUILD, m))
     rc, out = run(['ocamlfind', 'ocamlopt', '-O3', '-w', '-a', '-package', 'str', '-linkpkg',
-                   'model.mli', 'model.ml'] + mods + ['-o', 'driver'], cwd=BUILD, timeout=900)
+                   'model.mli', 'model.ml'] + mods + ['-o', 'driver.new'], cwd=BUILD, timeout=900)
     if rc != 0:
         return False, 'driver build failed:\n' + out[-3000:]
+    os.replace(os.path.join(BUILD, 'driver.new'), DRIVER)
     open(stamp, 'w').write(h)
     return True, 'driver rebuilt'
 
